@@ -471,21 +471,21 @@ func c11RandString(r *lib.Rng, alpha, n int) []byte {
 func c11Blocks(tier string) []*c11Block {
 	if tier == "quick" {
 		return []*c11Block{
-			{name: "a2/olds1", bss: []int{1, 2, 3}, alpha: 2, nOlds: 1, maxOld: 5, maxSrc: 7, sampleTarget: 900},
-			{name: "a2/olds2/len3", bss: []int{1, 2, 3}, alpha: 2, nOlds: 2, maxOld: 3, maxSrc: 7, sampleTarget: 900},
-			{name: "a2/olds2/len5", bss: []int{1, 2, 3}, alpha: 2, nOlds: 2, maxOld: 5, maxSrc: 7, sampleOnly: 900},
-			{name: "a2/olds3/len5", bss: []int{1, 2, 3}, alpha: 2, nOlds: 3, maxOld: 5, maxSrc: 7, sampleOnly: 900},
+			{name: "a2/olds1", bss: []int{1, 2, 3}, alpha: 2, nOlds: 1, maxOld: 5, maxSrc: 7, sampleTarget: 300},
+			{name: "a2/olds2/len4", bss: []int{1, 2, 3}, alpha: 2, nOlds: 2, maxOld: 4, maxSrc: 7, sampleTarget: 400},
+			{name: "a2/olds2/len5", bss: []int{1, 2, 3}, alpha: 2, nOlds: 2, maxOld: 5, maxSrc: 7, sampleOnly: 250},
+			{name: "a2/olds3/len5", bss: []int{1, 2, 3}, alpha: 2, nOlds: 3, maxOld: 5, maxSrc: 7, sampleOnly: 250},
 		}
 	}
 	return []*c11Block{
-		{name: "a2/olds1", bss: []int{1, 2, 3, 4}, alpha: 2, nOlds: 1, maxOld: 7, maxSrc: 9, sampleTarget: 6000},
-		{name: "a2/olds2/len5", bss: []int{1, 2, 3, 4}, alpha: 2, nOlds: 2, maxOld: 5, maxSrc: 9, sampleTarget: 8000},
-		{name: "a2/olds3/len3", bss: []int{1, 2, 3, 4}, alpha: 2, nOlds: 3, maxOld: 3, maxSrc: 9, sampleTarget: 6000},
-		{name: "a3/olds1", bss: []int{1, 2, 3, 4}, alpha: 3, nOlds: 1, maxOld: 5, maxSrc: 7, sampleTarget: 5000},
-		{name: "a3/olds2/len3", bss: []int{1, 2, 3, 4}, alpha: 3, nOlds: 2, maxOld: 3, maxSrc: 7, sampleTarget: 5000},
-		{name: "a2/olds2/len7", bss: []int{1, 2, 3, 4}, alpha: 2, nOlds: 2, maxOld: 7, maxSrc: 9, sampleOnly: 4000},
-		{name: "a2/olds3/len7", bss: []int{1, 2, 3, 4}, alpha: 2, nOlds: 3, maxOld: 7, maxSrc: 9, sampleOnly: 4000},
-		{name: "a3/olds3/len7", bss: []int{1, 2, 3, 4}, alpha: 3, nOlds: 3, maxOld: 7, maxSrc: 9, sampleOnly: 3000},
+		{name: "a2/olds1", bss: []int{1, 2, 3, 4}, alpha: 2, nOlds: 1, maxOld: 7, maxSrc: 9, sampleTarget: 3000},
+		{name: "a2/olds2/len5", bss: []int{1, 2, 3, 4}, alpha: 2, nOlds: 2, maxOld: 5, maxSrc: 9, sampleTarget: 4000},
+		{name: "a2/olds3/len3", bss: []int{1, 2, 3, 4}, alpha: 2, nOlds: 3, maxOld: 3, maxSrc: 9, sampleTarget: 3000},
+		{name: "a3/olds1", bss: []int{1, 2, 3, 4}, alpha: 3, nOlds: 1, maxOld: 5, maxSrc: 7, sampleTarget: 2500},
+		{name: "a3/olds2/len3", bss: []int{1, 2, 3, 4}, alpha: 3, nOlds: 2, maxOld: 3, maxSrc: 6, sampleTarget: 2500},
+		{name: "a2/olds2/len7", bss: []int{1, 2, 3, 4}, alpha: 2, nOlds: 2, maxOld: 7, maxSrc: 9, sampleOnly: 2000},
+		{name: "a2/olds3/len7", bss: []int{1, 2, 3, 4}, alpha: 2, nOlds: 3, maxOld: 7, maxSrc: 9, sampleOnly: 2000},
+		{name: "a3/olds3/len7", bss: []int{1, 2, 3, 4}, alpha: 3, nOlds: 3, maxOld: 7, maxSrc: 9, sampleOnly: 1500},
 	}
 }
 
@@ -804,6 +804,43 @@ func (bc *c11Big) build(r *lib.Rng) (olds [][]byte, src []byte) {
 // the length of the single old file (a few bytes of a 256-letter alphabet, so that some
 // positions of the random source match and most do not), Segs[0].N the source length
 func (bc *c11Big) buildSmallBS(r *lib.Rng) (olds [][]byte, src []byte) {
+	if bc.Flavour == "rle" {
+		// old file: distinct small values; source: long runs of values >= 240 with a few copies of
+		// old blocks (and of the old tail) dropped in
+		if len(bc.OldBlk) > 0 {
+			o := make([]byte, bc.OldBlk[0])
+			for i := range o {
+				o[i] = byte(3 + 2*(i%100))
+			}
+			olds = append(olds, o)
+		}
+		n := bc.Segs[0].N
+		src = make([]byte, n)
+		for i := 0; i < n; {
+			l := []int{1, 2, bc.BS, 1000, 100000, r.Range(1, 300000)}[r.Intn(6)]
+			v := byte(240 + r.Intn(16))
+			for j := 0; j < l && i < n; j++ {
+				src[i] = v
+				i++
+			}
+		}
+		if len(olds) > 0 && len(olds[0]) >= bc.BS {
+			for k := 0; k < 25; k++ {
+				at := r.Intn(n + 1)
+				b := r.Intn(len(olds[0])/bc.BS) * bc.BS
+				e := b + bc.BS*r.Range(1, 2)
+				if e > len(olds[0]) || r.Chance(1, 5) {
+					e = len(olds[0])
+				}
+				copy(src[min(at, n):], olds[0][b:e])
+			}
+			if r.Bool() { // the source ends with the last blocks of the old file
+				t := olds[0][(len(olds[0])-1)/bc.BS*bc.BS:]
+				copy(src[n-min(n, len(t)):], t)
+			}
+		}
+		return
+	}
 	if len(bc.OldBlk) > 0 {
 		olds = append(olds, r.Bytes(bc.OldBlk[0]))
 	}
@@ -944,61 +981,127 @@ func c11BigCases(r *lib.Rng, tier string) []*c11Big {
 	return out
 }
 
+// run-length friendly real-constant cases: these are also evaluated by the model (group "big",
+// about two minutes of vm_compute per 4 MiB of source), thorough tier only
+func c11RleCases(r *lib.Rng, tier string) []*c11Big {
+	if tier == "quick" {
+		return nil
+	}
+	bs := c11BS
+	out := []*c11Big{
+		{Name: "rle/nomatch-66bs+1", Flavour: "rle", Segs: []c11Seg{{Kind: "fresh", N: 66*bs + 1}}, Pref: -1},
+		{Name: "rle/lastrun-129bs+1000", Flavour: "rle", Segs: []c11Seg{{Kind: "fresh", N: 129*bs + 1000}}, Pref: -1},
+		{Name: "rle/match-long-tail", Flavour: "rle", OldBlk: []int{4}, OldTail: []int{999}, Pref: 0,
+			Segs: []c11Seg{{Kind: "fresh", N: 1000}, {Kind: "match", N: 2, File: 0, At: 1}, {Kind: "fresh", N: 4*c11MiB + bs + 1},
+				{Kind: "match", N: 1, File: 0, At: 0}, {Kind: "fresh", N: bs - 1}, {Kind: "match", N: 1, File: 0, At: 3}, {Kind: "oldtail", File: 0}}},
+		{Name: "rle/match-split-boundary", Flavour: "rle", OldBlk: []int{3, 2}, OldTail: []int{0, 17}, Pref: int64(r.Range(-1, 1)),
+			Segs: []c11Seg{{Kind: "match", N: 3, File: 0, At: 0}, {Kind: "fresh", N: 4*c11MiB + 2*bs - 2 - r.Intn(3)},
+				{Kind: "match", N: 2, File: 1, At: 0}, {Kind: "fresh", N: r.Range(1, 3*bs)}}},
+	}
+	for _, sb := range []int{1, 2, 16} {
+		l := 2*sb + wsync.MaxDataOp
+		ln := []int{l, l + 1, 2*l - sb, wsync.MaxDataOp + 2*sb - 1}[r.Intn(4)]
+		if sb == 1 {
+			ln = l // the input shape of the fixed index-out-of-range defect
+		}
+		out = append(out, &c11Big{BS: sb, Name: fmt.Sprintf("rle/bs%d/%d", sb, ln), Flavour: "rle", OldBlk: []int{3*sb + r.Intn(sb)}, OldTail: []int{0},
+			Segs: []c11Seg{{Kind: "fresh", N: ln}}, Pref: int64(r.Range(-1, 0))})
+	}
+	return out
+}
+
+func c11RleL(files [][]byte) string {
+	s := make([]string, len(files))
+	for i, f := range files {
+		s[i] = lib.ToRle(f).Coq()
+	}
+	return lib.CoqList(s)
+}
+
 func c11RunBig(c *Ctx, r *lib.Rng) error {
 	ctxs := map[int]*wsync.Context{}
-	for _, bc := range append(c11BigCases(r.Fork(), c.Tier), c11SmallBSCases(r.Fork(), c.Tier)...) {
-		cr := r.Fork()
-		olds, src := bc.build(cr)
-		bs := c11BS
-		if bc.BS != 0 {
-			bs = bc.BS
-		}
-		if ctxs[bs] == nil {
-			ctxs[bs] = wsync.NewContext(bs)
-		}
-		ctx := ctxs[bs]
-		in := &c11Input{bs: bs, olds: olds, src: src, pref: bc.Pref}
-		var ops []c11Op
-		oracle := ""
-		cls, msg := lib.WithDeadline(120*time.Second, func() error {
-			sig, err := c11SignAll(ctx, olds)
-			if err != nil {
-				return err
-			}
-			var dc, dm string
-			ops, dc, dm = c11Diff(ctx, wsync.NewBlockLibrary(sig), src, bc.Pref)
-			var applied []byte
-			ac, am := "", ""
-			if dc == "ok" {
-				applied, ac, am = c11Apply(ctx, lib.NewMemPool(olds), ops)
-			}
-			oracle = c11Oracle(in, ops, dc, dm, applied, ac, am)
-			return nil
-		})
-		if cls != "ok" {
-			oracle = "differ " + cls + ": " + msg
-		}
-		finding := ""
-		sizes := []int{}
-		for _, o := range ops {
-			if !o.Range {
-				sizes = append(sizes, len(o.Data))
-			}
-		}
-		class := "real/" + strings.SplitN(bc.Name, "/", 2)[0] + "/" + bc.Flavour
-		c.Out.Emit(&lib.Case{Class: class, Nontrivial: len(ops) >= 2,
-			Input: map[string]interface{}{"name": bc.Name, "bs": bs, "flavour": bc.Flavour, "oldBlocks": bc.OldBlk, "oldTails": bc.OldTail,
-				"segments": bc.Segs, "srcLen": len(src), "pref": bc.Pref, "srcDigest": lib.Digest(src)},
-			Obs:    map[string]interface{}{"ops": c11OpsJ(ops, false), "dataSizes": sizes},
-			Oracle: oracle, Finding: finding})
-		if cls == "hang" {
-			return nil // the leaked goroutine still uses ctx: stop here, the verdict is a violation anyway
+	all := append(c11BigCases(r.Fork(), c.Tier), c11SmallBSCases(r.Fork(), c.Tier)...)
+	all = append(all, c11RleCases(r.Fork(), c.Tier)...)
+	for _, bc := range all {
+		if err := c11RunOneBig(c, ctxs, bc, r.Fork()); err != nil {
+			return err
 		}
 	}
 	return nil
 }
 
+func c11RunOneBig(c *Ctx, ctxs map[int]*wsync.Context, bc *c11Big, cr *lib.Rng) error {
+	olds, src := bc.build(cr)
+	bs := c11BS
+	if bc.BS != 0 {
+		bs = bc.BS
+	}
+	if ctxs[bs] == nil {
+		ctxs[bs] = wsync.NewContext(bs)
+	}
+	ctx := ctxs[bs]
+	in := &c11Input{bs: bs, olds: olds, src: src, pref: bc.Pref}
+	var ops []c11Op
+	oracle := ""
+	cls, msg := lib.WithDeadline(120*time.Second, func() error {
+		sig, err := c11SignAll(ctx, olds)
+		if err != nil {
+			return err
+		}
+		var dc, dm string
+		ops, dc, dm = c11Diff(ctx, wsync.NewBlockLibrary(sig), src, bc.Pref)
+		var applied []byte
+		ac, am := "", ""
+		if dc == "ok" {
+			applied, ac, am = c11Apply(ctx, lib.NewMemPool(olds), ops)
+		}
+		oracle = c11Oracle(in, ops, dc, dm, applied, ac, am)
+		return nil
+	})
+	if cls != "ok" {
+		oracle = "differ " + cls + ": " + msg
+		delete(ctxs, bs) // a leaked goroutine may still use that context
+	}
+	finding := ""
+	sizes := []int{}
+	for _, o := range ops {
+		if !o.Range {
+			sizes = append(sizes, len(o.Data))
+		}
+	}
+	class := "real/" + strings.SplitN(bc.Name, "/", 2)[0] + "/" + bc.Flavour
+	group, coq := "", ""
+	if bc.Flavour == "rle" && oracle == "" {
+		group = "big"
+		ys := make([]string, len(ops))
+		for i, o := range ops {
+			if o.Range {
+				ys[i] = fmt.Sprintf("YR %d %d %d", o.File, o.Index, o.Span)
+			} else {
+				ys[i] = fmt.Sprintf("YD %d", len(o.Data))
+			}
+		}
+		coq = fmt.Sprintf("($ID%%N, %d%%N, %s, %s, %s, ([%s]%%N))", bs, c11RleL(olds), lib.ToRle(src).Coq(), c11PrefCoq(bc.Pref), strings.Join(ys, "; "))
+	}
+	c.Out.Emit(&lib.Case{Group: group, Coq: coq, Class: class, Nontrivial: len(ops) >= 2,
+		Input: map[string]interface{}{"name": bc.Name, "bs": bs, "flavour": bc.Flavour, "oldBlocks": bc.OldBlk, "oldTails": bc.OldTail,
+			"segments": bc.Segs, "srcLen": len(src), "pref": bc.Pref, "srcDigest": lib.Digest(src)},
+		Obs:    map[string]interface{}{"ops": c11OpsJ(ops, false), "dataSizes": sizes},
+		Oracle: oracle, Finding: finding})
+	return nil
+}
+
 func runC11(c *Ctx) error {
+	if c.Replay == "rle" { // developer switch: only the model-evaluated real-constant cases
+		c.Tier = "thorough"
+		r := c.Rng.Fork()
+		for _, bc := range c11RleCases(r.Fork(), c.Tier) {
+			if err := c11RunOneBig(c, map[int]*wsync.Context{}, bc, r.Fork()); err != nil {
+				return err
+			}
+		}
+		return nil
+	}
 	// real constants first: the corpus case of the fixed defect leads the run
 	if err := c11RunBig(c, c.Rng.Fork()); err != nil {
 		return err
@@ -1015,8 +1118,8 @@ func runC11(c *Ctx) error {
 			return err
 		}
 	}
-	if err := c11RandomSmall(c, c.Rng.Fork(), c.N(2500, 30000)); err != nil {
+	if err := c11RandomSmall(c, c.Rng.Fork(), c.N(900, 12000)); err != nil {
 		return err
 	}
-	return c11ApplyGroup(c, c.Rng.Fork(), c.N(400, 4000))
+	return c11ApplyGroup(c, c.Rng.Fork(), c.N(250, 2000))
 }
